@@ -33,6 +33,8 @@ def run(ck: Checker):
     ck.rule('C12-12', 'the future exists when start() returns: it is created by the constructor or by start(), never by the new thread, and run() does not replace it (ORIGIN)', minimum=2)
     check_future_exists_at_start(ck, 'C12-12')
     check_thread_traceback(ck, 'C12-6')
+    ck.rule('C12-13', 'a child whose run() itself failed (the result could not be pickled, the report of the exception raised) does not exit with status 0: the override of _bootstrap returns the recorded code only after it has consulted what the standard bootstrap returned (1 when run() raised) — assert / test / combine, never discard')
+    check_bootstrap_code(ck, 'C12-13')
     ck.rule('C12-7', 'pipe ownership: the write end of the result pipe lives only in a mapping created by SpawnProcess.__init__ (never in the caller\'s kwargs dict), so that a killed child is seen as EOF (ORIGIN)')
     check_pipe_ownership(ck, 'C12-7')
     ck.rule('C12-11', 'sys.exit classification: only None and integer 0 are a clean end; decided by evaluating the SystemExit handler\'s tests over representatives of every outcome class (finite-domain evaluation)', minimum=2)
@@ -515,3 +517,24 @@ def check_wait_maps(ck: Checker, rid: str):
                         if not (isinstance(lk.slice, ast.Call) and dotted(lk.slice.func) == kf and len(lk.slice.args) == 1 and isinstance(lk.slice.args[0], ast.Name)):
                             probs.append(f'lookup key `{norm_text(lk.slice)}` does not agree with build key `{bk}`')
             ck.ob(rid, f, (f.node.lineno, f'{name} map'), not probs, '; '.join(probs) if probs else f'futures indexed and looked up with the same key function `{kf}(future)`')
+
+
+def check_bootstrap_code(ck: Checker, rid: str):
+    cls = ck.repo.cls(CONTEXT, 'SpawnProcess')
+    f = next((m for m in cls.methods() if m.name == '_bootstrap'), None)
+    if f is None:
+        ck.ob(rid, cls.methods()[0], cls.node, True, 'SpawnProcess does not override _bootstrap: the exit status is the standard one')
+        return
+    calls = [c for c in walk_shallow_func(f.node) if isinstance(c, ast.Call) and isinstance(c.func, ast.Attribute) and c.func.attr == '_bootstrap']
+    ck.need(calls, f'{f.key}: call of the standard _bootstrap not found')
+    probs = []
+    for c in calls:
+        holder = next((st for st in ast.walk(f.node) if isinstance(st, ast.stmt) and any(x is c for x in ast.walk(st)) and not isinstance(st, (ast.FunctionDef, ast.AsyncFunctionDef, ast.If, ast.Try, ast.With, ast.For, ast.While))), None)
+        if isinstance(holder, ast.Expr):
+            probs.append(f'L{c.lineno}: the value of `{norm_text(c)[:50]}` is discarded: when run() itself raised (standard bootstrap returns 1) the child still exits with the recorded code, 0 — exitcode 0 with no outcome delivered')
+        elif isinstance(holder, ast.Assign) and len(holder.targets) == 1 and isinstance(holder.targets[0], ast.Name):
+            v = holder.targets[0].id
+            used = [x for x in ast.walk(f.node) if isinstance(x, ast.Name) and x.id == v and isinstance(x.ctx, ast.Load)]
+            if not used:
+                probs.append(f'L{c.lineno}: `{v}` (what the standard bootstrap returned) is never read')
+    ck.ob(rid, f, calls[0], not probs, '; '.join(probs) if probs else 'the code returned by the standard bootstrap is consulted before the recorded one is returned')
